@@ -148,7 +148,9 @@ theorem mo_entry_view_neutral (e : Mo.Entry) (h : Translated e) : observe (ofMo 
   | plural p fs =>
     rw [hb] at h
     simp only at h
-    simp [poTranslated, h]
+    have := enumerate_any (fun x => x != []) 0 fs
+    simp only [poTranslated, this, h]
+    simp
 
 /-- without the hypothesis the two views differ in `translated()` only (`check_plurals` is the only reader) -/
 theorem mo_entry_view_untranslated (e : Mo.Entry) :
